@@ -196,7 +196,7 @@ def boundary_layer(ctx, offsets, cpp=True):
 
 
 def run(ctx):
-    ctx.build_repo(need_hook=False)
+    ctx.build_repo(need_hook=True)
     ok, failing, log = ctx.coq_props("C01")
     ctx.coverage["trusted_base"] = TRUSTED
     ctx.coverage["rule"] = ("(1) writer op scripts x buffer sizes on the real CodedOutputStream; (2) random valid packages "
